@@ -58,9 +58,15 @@ pub fn add_re<A>(
         }
 
         Regex::CharSet(set) => {
+            let mut seen_chars: Vec<char> = vec![];
             for char in &set.0 {
                 match char {
                     CharOrRange::Char(char) => {
+                        // A character may be listed more than once, e.g. `['a' 'a']`
+                        if seen_chars.contains(char) {
+                            continue;
+                        }
+                        seen_chars.push(*char);
                         nfa.add_char_transition(current, *char, cont);
                     }
                     CharOrRange::Range(range_start, range_end) => {
